@@ -4,7 +4,7 @@ Spec: spec/SSHSig.tla (+ _MC).  TLC enumerates (1) signer key type x algorithm x
 presented format (every algorithm name, certificate algorithm names, "", unknown) x mutation class x flag bytes
 (signed and presented) x no-touch-required x plain/certificate wrapper and checks the code-shaped Verify procedure
 against the property (VerifyIffValid, FormatTable, PresenceRule); (2) NewSignerWithAlgorithms (once or twice) and
-Sign/SignWithAlgorithm (RefusesOutsideList, NeverWidens); (3) the server's opt-out rule over all 256 flag bytes.
+Sign/SignWithAlgorithm (RefusesOutsideList, SignAlsoRefuses, NeverWidens); (3) the server's opt-out rule over all 256 flag bytes.
 Binding R replays every generated case on real keys of every type, the package's signers, software security keys
 and real client/server handshakes."""
 import vlib
@@ -34,11 +34,11 @@ def run(ctx):
         gen = "SSHSig_GenQ.cfg"
     res = par_tlc(ctx, M, jobs)
     if ctx.thorough:
-        # documents the design-level gap behind the open finding C40-M1 (expected counterexample)
+        # documentation of the repaired defect C40-M1 (FixSign = FALSE, code before bd7db8b): never replayed on the code
         r = ctx.tlc(M, cfg="SSHSig_DocSign.cfg", workers=4, timeout=900, expect_violation=True, count=False,
-                    note="expected counterexample: multiAlgorithmSigner does not override Sign")
+                    note="documentation (FixSign = FALSE): expected counterexample to SignAlsoRefuses")
         if r.violated != "SignAlsoRefuses":
-            ctx.notes.append("SSHSig_DocSign.cfg: the expected design-level counterexample (Sign bypasses the restriction list) was not found: the model no longer matches finding C40-M1")
+            raise vlib.Infra("SSHSig_DocSign.cfg: TLC no longer finds the counterexample that documents the repaired defect C40-M1 (violated=%r)" % r.violated)
     cases = res[gen].traces
     if ctx.replay:
         rep = __import__("json").load(open(ctx.replay))
